@@ -66,7 +66,7 @@ def handleC28 (c : Case) : Verdict := Id.run do
   let clean := tabs.cleanF
   -- oracle laws (validated on every table): G1, G2, G3
   for e in tabs.glob do
-    if e.1.1 == ['*'] && e.2 != some true then
+    if e.1.1 == ['*'] && e.2 != some (!e.1.2.contains '/') then
       return .differ "oracle-law" s!"G1 glob(*,{showStr e.1.2})"
     if isSimple e.1.1 && e.2 != some (e.1.1 == e.1.2) then
       return .differ "oracle-law" s!"G2 glob({showStr e.1.1},{showStr e.1.2})"
